@@ -221,6 +221,24 @@ func c15judge(op string, t *tree.Tree, wantTips []string, keeps []c15keep, extra
 	return "", ""
 }
 
+// c15lookups: the operation needs (and maintains) the name index: afterwards look-ups by name answer for the new tip set.
+func c15lookups(op string, t *tree.Tree, want []string) (string, string) {
+	for _, nm := range want {
+		ex, err := t.ExistsTip(nm)
+		if err != nil || !ex {
+			return "C15/" + op + "/lookup/exists", fmt.Sprintf("ExistsTip(%q) = %v, %v although the tip is in the tree (%s)", nm, ex, err, t.Newick())
+		}
+		nd, err := t.TipNode(nm)
+		if err != nil || nd == nil || nd.Name() != nm || !nd.Tip() {
+			return "C15/" + op + "/lookup/tipnode", fmt.Sprintf("TipNode(%q) fails (%v) although the tip is in the tree (%s)", nm, err, t.Newick())
+		}
+	}
+	if nb, err := t.NbTips(); err != nil || nb != len(want) {
+		return "C15/" + op + "/lookup/nbtips", fmt.Sprintf("NbTips() = %d, %v for a tree with %d tips (%s)", nb, err, len(want), t.Newick())
+	}
+	return "", ""
+}
+
 func c15tipNames(m *rm.Tree) []string {
 	var out []string
 	for _, n := range m.Tips() {
@@ -269,6 +287,9 @@ func c15runGraft(cs c15case) (key, what string) {
 		others := c15minus(c15tipNames(mb), cs.Tip)
 		want := append(append([]string(nil), others...), c15tipNames(mg)...)
 		key, what = c15judge("graft", t, want, []c15keep{{"host", db, others}, {"graft", dg, c15tipNames(mg)}}, nil)
+		if key == "" {
+			key, what = c15lookups("graft", t, want)
+		}
 		if key != "" {
 			what = fmt.Sprintf("graft %s in place of %s in %s: %s", cs.Tree2, cs.Tip, cs.Tree, what)
 		}
@@ -382,14 +403,20 @@ func c15runInsert(cs c15case) (key, what string) {
 				}
 			}
 		}
+		// the call gets its own copy of the groups (the recorded case stays what it was)
+		groups := make([][]string, len(cs.Groups))
+		for i, g := range cs.Groups {
+			groups[i] = append([]string(nil), g...)
+		}
+		groupsBefore := fmt.Sprint(cs.Groups)
 		var err error
 		if cs.Op == "insert1" {
 			var n *tree.Node
 			if n, err = t.TipNode(cs.Tip); err == nil {
-				_, err = t.InsertIdenticalTip(n, cs.Groups[0][1])
+				_, err = t.InsertIdenticalTip(n, groups[0][1])
 			}
 		} else {
-			err = t.InsertIdenticalTips(cs.Groups)
+			err = t.InsertIdenticalTips(groups)
 		}
 		if err != nil {
 			key, what = "C15/insert/refused/"+cl+"-branch", fmt.Sprintf("%v", err)
@@ -404,6 +431,26 @@ func c15runInsert(cs c15case) (key, what string) {
 			}
 			return "", ""
 		})
+		if key == "" {
+			key, what = c15lookups("insert", t, want)
+		}
+		if key == "" && cs.Op == "insert" {
+			// the groups are the caller's: the same request on a second tree (next tree of the file) gives the same result
+			note := ""
+			if fmt.Sprint(groups) != groupsBefore {
+				note = fmt.Sprintf(" (the groups passed to the first call are now %q)", groups)
+			}
+			t2, _, _ := c15input(cs.Tree, cs.Build)
+			if err := c15prepare(t2, cs.Reindex); err != nil {
+				key, what = "C15/harness/input", err.Error()
+				return
+			}
+			if err := t2.InsertIdenticalTips(groups); err != nil {
+				key, what = "C15/insert/second-tree-same-groups/refused", fmt.Sprintf("a second tree given the same groups: %v%s", err, note)
+			} else if t2.Newick() != t.Newick() {
+				key, what = "C15/insert/second-tree-same-groups", fmt.Sprintf("first tree %s, a second identical tree given the same groups %s%s", t.Newick(), t2.Newick(), note)
+			}
+		}
 	})
 	if crashed(r) {
 		return "C15/insert/crash/" + crashSite(r), fmt.Sprintf("insert %q into %s: %s", cs.Groups, cs.Tree, verdictStr(r))
@@ -821,6 +868,12 @@ func c15enumLocal(c *Ctx) {
 							doCase(cs, "graft_cases")
 						}
 					}
+					// the placeholder tip replaced by the clade of that taxon and its relatives: the graft holds a tip of the same name
+					for _, g := range []string{"(" + tp.Name + ":0.5,y2:0.25);", "((y1:1," + tp.Name + ":2)0.5:1,y3:1);"} {
+						for _, v := range c15variants(q, pl.n) {
+							doCase(c15case{Op: "graft", Tree: txt, Tree2: g, Tip: tp.Name, Build: v&1 != 0, Reindex: v&2 != 0}, "graft_cases", "graft_holds_tip_named_like_replaced_tip")
+						}
+					}
 				}
 			})
 		}
@@ -882,7 +935,9 @@ func c15enumLocal(c *Ctx) {
 					}
 					if i+1 < len(tips) {
 						o2 := tips[i+1]
-						groupSets = append(groupSets, [][]string{{o, "m1"}, {"u2", o2}}, [][]string{{o2, "m1", "m2"}, {o, "u2"}})
+						groupSets = append(groupSets, [][]string{{o, "m1"}, {"u2", o2}}, [][]string{{o2, "m1", "m2"}, {o, "u2"}},
+							// a group with nothing to add (a legal line of a group file) before / after a group that adds tips
+							[][]string{{o}, {o2, "m1"}}, [][]string{{"m1", o2}, {o}}, [][]string{{o}, {o2}, {"u1", o, "u2"}})
 					}
 					for _, gs := range groupSets {
 						for _, v := range c15variants(q, pl.n) {
